@@ -174,3 +174,19 @@ Example C08_year_end_inhabited :
   valid_yyjjj 99365 = true /\ derive_end_r 99365 23 = (1, 0) /\ derive_end_r 4366 23 = (5001, 0) /\
   derive_end_r 4059 23 = (4060, 0) /\ derive_end_r 99365 22 = (99365, 23).
 Proof. vm_compute. repeat split; reflexivity. Qed.
+
+(* ======================================================================================================
+   CAMx WIND files, Model/Wind.v
+   ====================================================================================================== *)
+From PNC Require Import Model.Wind Proofs.WindProofs.
+
+Theorem C08_wind_read_write_partial : forall c, w_wf c = true -> w_steps c <> [] -> 2 <= w_nx c * w_ny c ->
+  12 * Z.of_nat (length (w_steps c)) < w_body_bytes c + 4 ->
+  w_mm_read (w_ny c) (w_nx c) (w_enc c) (4 * Z.of_nat (length (w_enc c))) = WOk (w_view_of c).
+Proof. exact w_mm_read_enc. Qed.
+Print Assumptions C08_wind_read_write_partial.
+
+Theorem C08_wind_rewrite_idempotent : forall c, w_wf c = true ->
+  match w_dec (w_nx c) (w_ny c) (w_nz c) (w_stag c) (w_dummy c) (w_enc c) with Some c' => w_enc c' = w_enc c | None => False end.
+Proof. exact w_rewrite_idempotent. Qed.
+Print Assumptions C08_wind_rewrite_idempotent.
